@@ -76,8 +76,12 @@ CHECKS.update({
     "C10": dict(
         text=("Every program of the scalar and bundle cores is compiled with and without optimisation; TLC runs the two emitted circuits in "
               "lock-step from every boundary valuation and requires equal observations on every exported result (Refine2); an output only one "
-              "build exposes is a difference."),
-        design="DESIGN 7 C10", technique="TLC lock-step product of two compiled blueprints (Refine2)"),
+              "build exposes is a difference. In addition the CSE pass has a design model (Cse.tla: single pass with canonicalised keys, "
+              "rewiring; MergeSound / Partition / RewireSound / NoDuplicateKept model-checked over every pair and chain of a small operation "
+              "universe), every CSE pass recorded by hook H6 during these compilations is judged against it (TraceCse.tla) and 27k (quick) / "
+              "89k (thorough) TLC-enumerated operation sequences are built as real IR nodes and run through the real CSEOptimizer."),
+        design="DESIGN 7 C10, 14.11 Cse", technique="TLC lock-step product of two compiled blueprints (Refine2); TLC design model of the CSE pass + trace validation of recorded passes (code -> spec) "
+        "+ TLC-enumerated operation sequences replayed into the real optimizer (spec -> code)"),
     "C11": dict(
         text=("Every arithmetic operator x 7 folding sites x all defined pairs of 9 boundary operands: the folded build is judged against the "
               "interpreter whose compile-time arithmetic is Int32.tla, compared in lock-step with its Deconst twin (the constant replaced by an "
